@@ -506,5 +506,57 @@ func main() {
 			c.Count("transitions", transitions)
 			c.CountMax("max_states_in_one_configuration", states)
 		}
+
+		// (iii) long chains: more entries than any small-size shortcut would
+		// hold: n keys set, one touched, then n more keys set so that every
+		// original entry is evicted in order; MaxCount / MaxSize around n.
+		n := int64(0)
+		maxN := runlib.Pick(c, 14, 24)
+		for size := 1; size <= maxN; size++ {
+			for touch := -1; touch < size; touch++ {
+				for _, lim := range []int{size - 1, size, size + 1, 8, 9} {
+					for _, bySize := range []bool{false, true} {
+						n++
+						if lim < 1 || !c.Mine(n) {
+							continue
+						}
+
+						cf := conf{LRU: true, OnDelete: 1}
+						if bySize {
+							cf.MaxSize = uint(lim * 4)
+						} else {
+							cf.MaxCount = uint(lim)
+						}
+
+						var ops []op
+						for i := 0; i < size; i++ {
+							ops = append(ops, op{Kind: "set", Key: fmt.Sprintf("k%02d", i), Val: "v"})
+						}
+
+						if touch >= 0 {
+							ops = append(ops, op{Kind: "get", Key: fmt.Sprintf("k%02d", touch)})
+							ops = append(ops, op{Kind: "set", Key: fmt.Sprintf("k%02d", (touch+1)%size), Val: "w"})
+						}
+
+						for i := 0; i < size+1; i++ {
+							ops = append(ops, op{Kind: "set", Key: fmt.Sprintf("n%02d", i), Val: "v"})
+						}
+
+						for i := 0; i < size; i++ {
+							ops = append(ops, op{Kind: "get", Key: fmt.Sprintf("k%02d", i)})
+						}
+
+						ops = append(ops, op{Kind: "del", Key: "n00"}, op{Kind: "stats"})
+						c.Eval()
+						c.Family("long-chains")
+						if res := runHistory(cf, ops); !res.ok {
+							report(c, cf, ops, res)
+						} else {
+							c.NontrivialInjective()
+						}
+					}
+				}
+			}
+		}
 	})
 }
